@@ -37,9 +37,11 @@ IStep(op) ==
          LET key == ItemAt(rings, op.ring, op.key) ret == RefSetKeyRet("builder", op.alg, key) IN
          BSetKey(op.b, op.alg, op.ring, op.key, ret) /\ obs' = [k |-> "SetKey", side |-> "builder", alg |-> op.alg, key |-> key, ret |-> ret]
     [] op.op = "CLeeway" -> CLeeway(op.c, op.claim, op.secs, IF LeewayValid(op.claim) THEN 0 ELSE 1) /\ obs' = [k |-> "other"]
-    [] op.op = "CClaimSet" -> CClaimSet(op.c, op.claim, op.val, IF StrClaim(op.claim) /\ op.val # NONE THEN 0 ELSE 1) /\ obs' = [k |-> "other"]
+    [] op.op = "CClaimSet" -> CClaimSet(op.c, op.claim, op.val, ClaimSetRet(op.claim, op.val)) /\ obs' = [k |-> "other"]
     [] op.op = "CClaimDel" -> CClaimDel(op.c, op.claim, IF StrClaim(op.claim) THEN 0 ELSE 1) /\ obs' = [k |-> "other"]
     [] op.op = "CClaimGet" -> UNCHANGED vars /\ obs' = [k |-> "other"]
+    [] op.op = "CSetCb" /\ "ctxonly" \in DOMAIN op -> CSetCbCtx(op.c, SetCbCtxRet(checkers[op.c])) /\ obs' = [k |-> "other"]
+    [] op.op = "BSetCb" /\ "ctxonly" \in DOMAIN op -> BSetCbCtx(op.b, SetCbCtxRet(builders[op.b])) /\ obs' = [k |-> "other"]
     [] op.op = "CSetCb" -> CSetCb(op.c, IF "prog" \in DOMAIN op THEN op.prog ELSE <<>>, "prog" \in DOMAIN op, 0) /\ obs' = [k |-> "other"]
     [] op.op = "BSetCb" -> BSetCb(op.b, IF "prog" \in DOMAIN op THEN op.prog ELSE <<>>, "prog" \in DOMAIN op, 0) /\ obs' = [k |-> "other"]
     [] op.op = "BIat" -> BIat(op.b, op.enable) /\ obs' = [k |-> "other"]
@@ -71,6 +73,15 @@ IStep(op) ==
 IInitWith(S) == Init /\ script \in S /\ pc = 1 /\ obs = [k |-> "init"]
 INext == pc <= Len(script) /\ IStep(script[pc]) /\ pc' = pc + 1 /\ UNCHANGED script
 ISpecWith(S) == IInitWith(S) /\ [][INext]_ivars
+\* The same for a family (sequence) of script sets.  TLC enumerates A \cup B by testing every element of B
+\* for membership in A - linear in A while A is not normalised - so the union of big script sets costs
+\* |A| * |B| deep comparisons (4.5 min for 36 k scripts); a disjunction in Init does not.
+IInitFam(F) == Init /\ (\E i \in DOMAIN F : script \in F[i]) /\ pc = 1 /\ obs = [k |-> "init"]
+ISpecFam(F) == IInitFam(F) /\ [][INext]_ivars
+\* ... and for families indexed by anything (UNION { f(x) : x \in X } is quadratic in the same way: write
+\* the family as the function [x \in X |-> f(x)] and say  MCSpec == ISpecP(InFam(F1) \/ InFam(F2) \/ script \in S)
+InFam(F) == \E i \in DOMAIN F : script \in F[i]
+ISpecP(P) == (Init /\ P /\ pc = 1 /\ obs = [k |-> "init"]) /\ [][INext]_ivars
 
 \* ---- the reference satisfies every property clause stated on verify
 RefVerifyOK ==
